@@ -17,18 +17,32 @@ structure C05St where
   sentOk : List Nat
   handled : List Nat
   everEmpty : Bool             -- the strong-holder set was observed empty
+  armed : List Nat             -- timers that have been armed at least once
+  sending : List Nat           -- timers whose closure ran and whose send may still be in flight (they own a strong sender)
   deriving Repr, DecidableEq
 
 def monC05 (c : MonCtx) : Mon C05St where
   init := { hold := HoldSt.init c.h0 c.k0, inflight := [], stopIssued := false, restartsPending := 0, failure := false,
             streamEnded := false, terminated := false, graceful := false, sends := [], sentOk := [],
-            handled := [], everEmpty := false }
+            handled := [], everEmpty := false, armed := [], sending := [] }
   step st l :=
     -- (3) upgrading succeeds only while a strong holder exists
     let bad3 := (match l with
-      | .upgrade _ (some _) => !st.hold.strongHeld && st.inflight.isEmpty
+      | .upgrade _ (some _) => !st.hold.strongHeld && st.inflight.isEmpty && st.sending.isEmpty
       | _ => false)
-    if bad3 then none else
+    -- timers never keep the actor alive: with no strong holder left an `interval` cannot upgrade its
+    -- weak sender any more, so it cannot go round again
+    let bad4 := (match l with
+      | .timerArm t _ =>
+        st.armed.contains t && !st.hold.strongHeld && st.inflight.isEmpty
+          && (st.sending.filter (fun x => x != t)).isEmpty && !st.sending.contains t
+      | _ => false)
+    let st := (match l with
+      | .timerArm t _ => { st with armed := t :: st.armed, sending := st.sending.filter (fun x => x != t) }
+      | .timerEnd t => { st with sending := st.sending.filter (fun x => x != t) }
+      | .fire t (some _) => { st with sending := t :: st.sending }
+      | _ => st)
+    if bad3 || bad4 then none else
     let hold' := st.hold.step l
     let inflight' := (match l with
       | .begin o _ (.trySend _) | .begin o _ (.tryCall _) | .begin o _ .tryHalt | .begin o _ (.callw _) =>
